@@ -10,6 +10,9 @@ use std::path::Path;
 
 const EDGE_KINDS: [&str; 5] = ["", "T", "T!", "[T]", "[T!]!"];
 
+/// the same graph under names that `normalization = "rust"` spells differently (Hasura / PostGraphile style)
+const SNAKE_NAMES: [&str; 6] = ["tree_node", "users_bool_exp", "HTTPFilter", "order_by", "input_x", "aB"];
+
 fn input_program(names: &[&str], edges: &[(usize, usize, &str)], one_of: &[bool]) -> Program {
     let mut defs = vec![];
     for (i, n) in names.iter().enumerate() {
@@ -151,7 +154,16 @@ pub fn run(outdir: &Path, tier: &str, seed: u64, shards: usize, replay: Option<S
                     edges.push((a, b, EDGE_KINDS[c % 5]));
                     c /= 5;
                 }
-                work.push((input_program(&["A", "B"], &edges, &[flags & 1 == 1, flags & 2 == 2]), "inputs/2 types exhaustive".into()));
+                let mut p = input_program(&["A", "B"], &edges, &[flags & 1 == 1, flags & 2 == 2]);
+                // every fifth labelling also under Rust normalization with names it changes, and with skip_serializing_none
+                if idx % 5 == 0 {
+                    let mut p2 = input_program(&SNAKE_NAMES[..2], &edges, &[flags & 1 == 1, flags & 2 == 2]);
+                    p2.opts.normalization_rust = true;
+                    p2.opts.skip_serializing_none = idx % 10 == 0;
+                    work.push((p2, "inputs/2 types exhaustive".into()));
+                    p.opts.skip_serializing_none = true;
+                }
+                work.push((p, "inputs/2 types exhaustive".into()));
             }
         }
         // (b) random graphs on 3..6 types
@@ -162,7 +174,11 @@ pub fn run(outdir: &Path, tier: &str, seed: u64, shards: usize, replay: Option<S
             let ne = 1 + rng.below(2 * k);
             let edges: Vec<(usize, usize, &str)> = (0..ne).map(|_| (rng.below(k), rng.below(k), EDGE_KINDS[1 + rng.below(4)])).collect();
             let one_of: Vec<bool> = (0..k).map(|_| rng.chance(1, 4)).collect();
-            work.push((input_program(&names[..k], &edges, &one_of), format!("inputs/{} types random", k)));
+            let snake = rng.chance(1, 3);
+            let mut p = input_program(if snake { &SNAKE_NAMES[..k] } else { &names[..k] }, &edges, &one_of);
+            p.opts.normalization_rust = snake && rng.chance(3, 4);
+            p.opts.skip_serializing_none = rng.chance(1, 3);
+            work.push((p, format!("inputs/{} types random", k)));
         }
         // (c) fragment patterns x other-variant x normalization
         for (name, defs) in fragment_patterns() {
@@ -201,7 +217,7 @@ pub fn run(outdir: &Path, tier: &str, seed: u64, shards: usize, replay: Option<S
     let cs = CaseSet {
         run_module: "RunC12".into(),
         cases,
-        checkers: vec!["corr".into(), "prop_finite".into(), "accepted".into()],
+        checkers: vec!["corr".into(), "prop_finite".into(), "prop_box_transparent".into(), "accepted".into()],
         extra_imports: vec!["TypeExpr".into(), "Schema".into(), "Query".into(), "Attrs".into(), "Codegen".into(), "RunGen".into()],
         preludes: vec![],
     };
